@@ -197,6 +197,14 @@ func (fr *frame) applyCall(cc *ssa.CallCommon, st *bstate, site ssa.Instruction,
 	for _, a := range cc.Args {
 		fr.guardedRefHandedOn(a, st, "passed to "+shortCallee(valueLabel(cc.Value)), pos)
 	}
+	if sc := cc.StaticCallee(); sc != nil && sc.Signature.Recv() != nil && len(cc.Args) >= 2 {
+		if rn := types.TypeString(sc.Signature.Recv().Type(), nil); rn == "*sync.Map" {
+			switch sc.Name() {
+			case "Load", "Store", "LoadOrStore", "LoadAndDelete", "Delete", "Swap", "CompareAndSwap", "CompareAndDelete":
+				fr.checkHashableKey(cc.Args[1], st, "sync.Map."+sc.Name(), pos)
+			}
+		}
+	}
 	// sweep kind "constfmt": the format of fmt.Errorf / Sprintf / Fprintf is a constant, so that
 	// data (a peer's or handler's message) is only ever an operand of a verb, never the format
 	if f.sweep["constfmt"] && !f.dry {
@@ -268,6 +276,35 @@ func (fr *frame) applyCall(cc *ssa.CallCommon, st *bstate, site ssa.Instruction,
 		} else {
 			name = "dyn:" + valueLabel(cc.Value)
 			spec, pnames = fr.callSpecFor(cc)
+			// sweep kind "handlerresultro": what a user callback returned is handed on untouched - no element
+			// of a slice it returned, and no field of an object it returned, is assigned to afterwards
+			if f.sweep["handlerresultro"] && !f.dry {
+				if v, isVal := site.(ssa.Value); isVal {
+					var scan func(v ssa.Value, depth int)
+					scan = func(v ssa.Value, depth int) {
+						if v.Referrers() == nil || depth > 3 {
+							return
+						}
+						for _, r := range *v.Referrers() {
+							switch u := r.(type) {
+							case *ssa.Extract:
+								scan(u, depth+1)
+							case *ssa.IndexAddr, *ssa.FieldAddr:
+								av := r.(ssa.Value)
+								if av.Referrers() != nil {
+									for _, w := range *av.Referrers() {
+										if stw, ok := w.(*ssa.Store); ok && stw.Addr == av {
+											f.oblige(st, fmt.Sprintf("%s#handler-result-not-modified:%s", fnShortName(fr.fn), valueLabel(cc.Value)), "safety", f.sweepTags, "false",
+												"a value returned by the user's handler is modified before it is sent", posStr(f.e.fset, stw.Pos()))
+										}
+									}
+								}
+							}
+						}
+					}
+					scan(v, 0)
+				}
+			}
 			// sweep kind "unlockedcallbacks": a function value that is not one of this function's own
 			// closures (a user's handler, filter, middleware, hook) is called with none of the
 			// module's locks held: user code may call back into the registry or block
@@ -2551,4 +2588,64 @@ func (fr *frame) guardedRefHandedOn(v ssa.Value, st *bstate, how string, pos tok
 	f.oblige(st, fmt.Sprintf("%s#guarded-map-handed-on-only-under-its-lock:%s.%s", fnShortName(fr.fn), gr.tname, gr.fname), "guarded", gr.tags,
 		goal,
 		"the reference of the guarded map "+gr.tname+"."+gr.fname+" is "+how+" while its lock is not held: later uses happen outside the critical section", posStr(f.e.fset, pos))
+}
+
+// ---------------------------------------------------------------------------
+// sweep kind "hashkey": a value used as a map key (or as a sync.Map key) through an interface must be
+// hashable, otherwise the operation panics ("hash of unhashable type").  Values decoded by
+// encoding/json can be []interface{} or map[string]interface{}.
+
+func hasIfaceComponent(t types.Type) bool {
+	switch u := t.Underlying().(type) {
+	case *types.Interface:
+		return true
+	case *types.Array:
+		return hasIfaceComponent(u.Elem())
+	case *types.Struct:
+		for i := 0; i < u.NumFields(); i++ {
+			if hasIfaceComponent(u.Field(i).Type()) {
+				return true
+			}
+		}
+	}
+	return false
+}
+
+func (fr *frame) checkHashableKey(key ssa.Value, st *bstate, what string, pos token.Pos) {
+	f := fr.f
+	if !f.sweep["hashkey"] || f.dry || fr.recovers() {
+		return
+	}
+	goal := ""
+	if p, isParam := key.(*ssa.Parameter); isParam && p.Parent() != nil && p.Parent().Parent() != nil {
+		return // a key handed to an iteration callback (sync.Map.Range) comes out of the map itself
+	}
+	if mi, ok := key.(*ssa.MakeInterface); ok {
+		if !hasIfaceComponent(mi.X.Type()) {
+			return // boxed from a statically hashable type
+		}
+		if _, isIface := mi.X.Type().Underlying().(*types.Interface); !isIface {
+			goal = "false" // an array/struct key with interface-typed parts: the parts' dynamic types are not checked anywhere
+		}
+		key = mi.X
+	}
+	if goal == "" {
+		if _, isIface := key.Type().Underlying().(*types.Interface); !isIface {
+			if !hasIfaceComponent(key.Type()) {
+				return
+			}
+			goal = "false"
+		} else {
+			v := fr.val(key)
+			if v.K != KAny {
+				return
+			}
+			empty := types.NewInterfaceType(nil, nil)
+			okS, _ := f.typeTest(v, types.NewSlice(empty))
+			okM, _ := f.typeTest(v, types.NewMap(types.Typ[types.String], empty))
+			goal = and(not(okS), not(okM))
+		}
+	}
+	f.oblige(st, fmt.Sprintf("%s#hashable-key:%s", fnShortName(fr.fn), what), "safety", f.sweepTags, goal,
+		"a value whose dynamic type may be a slice or a map is used as a map key", posStr(f.e.fset, pos))
 }
